@@ -102,6 +102,7 @@ def generate(repo):
         items["AttenuationPolicy::default"] = "miss:%s" % ex
 
     sweep = "true"
+    sealed = "true"
     ddepth = 3
     try:
         src = strip_comments(read(repo, "tensor_vault/src/vault.rs"))
@@ -114,6 +115,9 @@ def generate(repo):
             if "cleanup_expired_grants()" not in b[:k]:
                 ok = False
         sweep = "true" if ok else "false"
+        _, b = find_fn(src, "cleanup_expired_grants", after=r"impl\s+Vault\b")
+        k = b.index("get_expired()")
+        sealed = "true" if re.search(r"is_sealed\(\)|check_sealed\(\)", b[:k]) else "false"
         m = re.search(r"max_delegation_depth\.unwrap_or\((\d+)\)", src)
         ddepth = int(m.group(1))
         items["vault.rs access checks sweep expired grants"] = "translated"
@@ -133,6 +137,8 @@ def generate(repo):
         "   cleanup_expired_grants() before consulting the graph; DelegationManager depth default *)\n"
         "Definition gen_sweep_on_check : bool := %s.\n"
         "Definition gen_max_deleg_depth : N := %d.\n"
-        % ("; ".join('"%s"' % a for a in allowed), prefix, depth, att, dflt[0], dflt[1], dflt[2], sweep, ddepth)
+        "(* Vault::cleanup_expired_grants returns before popping tracker entries while the vault is sealed *)\n"
+        "Definition gen_sealed_guard : bool := %s.\n"
+        % ("; ".join('"%s"' % a for a in allowed), prefix, depth, att, dflt[0], dflt[1], dflt[2], sweep, ddepth, sealed)
     )
     return text, items
